@@ -83,27 +83,154 @@ def index_terms(fs, limit=14):
     return terms[:limit]
 
 
+def sorted_terms(fs, limit=6):
+    """Ground terms of the non-Int, non-Bool sorts (arguments of uninterpreted functions, constants), grouped by sort."""
+    out = {}
+    visited = set()
+
+    def add(t):
+        so = t.sort()
+        if so.kind() in (z3.Z3_BOOL_SORT, z3.Z3_INT_SORT):
+            return
+        d = out.setdefault(so.name() + str(so), {})
+        d.setdefault(t.get_id(), t)
+
+    def visit(e):
+        if z3.is_quantifier(e):
+            return
+        k = e.get_id()
+        if k in visited:
+            return
+        visited.add(k)
+        if z3.is_app(e):
+            if e.decl().kind() == z3.Z3_OP_UNINTERPRETED:
+                if e.num_args() == 0:
+                    add(e)
+                for ch in e.children():
+                    add(ch)
+            elif e.decl().kind() in (z3.Z3_OP_SELECT, z3.Z3_OP_SEQ_LENGTH, z3.Z3_OP_SEQ_NTH, z3.Z3_OP_EQ):
+                for ch in e.children():
+                    add(ch)
+            for ch in e.children():
+                visit(ch)
+    for f in fs:
+        visit(f)
+    res = {}
+    for key, d in out.items():
+        ts = sorted(d.values(), key=lambda t: len(str(t)))
+        res[key] = ts[:limit]
+    return res
+
+
+def _match(pat, term, b):
+    """Syntactic matching of a pattern (bound variables = z3 Var) against a ground term."""
+    if z3.is_var(pat):
+        idx = z3.get_var_index(pat)
+        if idx in b:
+            return b[idx].eq(term)
+        if pat.sort() != term.sort():
+            return False
+        b[idx] = term
+        return True
+    if not z3.is_app(pat) or not z3.is_app(term):
+        return False
+    if not pat.decl().eq(term.decl()) or pat.num_args() != term.num_args():
+        return False
+    for pc, tc in zip(pat.children(), term.children()):
+        if not _match(pc, tc, b):
+            return False
+    return True
+
+
+def ematch(hyps, ground, limit=200):
+    """Instances of pattern-annotated quantified hypotheses obtained by matching a pattern against the ground subterms (E-matching without congruence)."""
+    buckets = {}
+    seen = set()
+
+    def visit(e):
+        if z3.is_quantifier(e) or e.get_id() in seen:
+            return
+        seen.add(e.get_id())
+        if z3.is_app(e):
+            if e.num_args() > 0:
+                buckets.setdefault(e.decl().name(), []).append(e)
+            for c in e.children():
+                visit(c)
+    for g in ground:
+        visit(g)
+    insts = []
+    for h in hyps:
+        if not (z3.is_quantifier(h) and h.is_forall()) or h.num_patterns() == 0:
+            continue
+        nv = h.num_vars()
+        for pi in range(h.num_patterns()):
+            pt = h.pattern(pi)
+            pats = [pt.arg(k) for k in range(pt.num_args())]
+            if not all(z3.is_app(p_) for p_ in pats):
+                continue
+            # (multi-)pattern: join the matches of each sub-pattern on shared variables
+            partial = [{}]
+            for p_ in pats:
+                nxt = []
+                for b in partial:
+                    for t in buckets.get(p_.decl().name(), [])[:limit]:
+                        b2 = dict(b)
+                        if _match(p_, t, b2):
+                            nxt.append(b2)
+                            if len(nxt) > 3000:
+                                break
+                    if len(nxt) > 3000:
+                        break
+                partial = nxt
+            done_keys = set()
+            for b in partial:
+                if len(b) != nv:
+                    continue
+                key = tuple(b[i].get_id() for i in range(nv))
+                if key in done_keys:
+                    continue
+                done_keys.add(key)
+                m = [b[i] for i in range(nv)]
+                insts.append(norm(z3.substitute_vars(h.body(), *m)))
+    return [i for i in insts if not z3.is_true(i)]
+
+
 def instantiate(hyps, ground, max_inst=400):
-    """Ground instances of Int-quantified hypotheses at the index terms of the ground part."""
+    """Ground instances of quantified hypotheses: Int variables at the index terms of the ground part,
+    variables of other sorts at the ground terms of that sort (all instances of valid hypotheses are valid)."""
     insts = []
     terms = index_terms(ground)
-    if not terms:
-        terms = []
     extra = [z3.IntVal(0)]
     tl = terms + [t for t in extra if all(not t.eq(x) for x in terms)]
+    others = None
     for h in hyps:
         if not (z3.is_quantifier(h) and h.is_forall()):
             continue
         nv = h.num_vars()
-        if any(h.var_sort(i) != z3.IntSort() for i in range(nv)):
-            continue
-        if nv == 1:
-            combos = [(t,) for t in tl]
-        elif nv == 2:
-            sub = tl[:8]
-            combos = [(a, b) for a in sub for b in sub]
+        sorts = [h.var_sort(i) for i in range(nv)]
+        if all(so == z3.IntSort() for so in sorts):
+            if nv == 1:
+                combos = [(t,) for t in tl]
+            elif nv == 2:
+                sub = tl[:8]
+                combos = [(a, b) for a in sub for b in sub]
+            else:
+                continue
         else:
-            continue
+            if nv > 4 or h.num_patterns() > 0:
+                continue        # pattern-annotated hypotheses are instantiated by E-matching only
+            if others is None:
+                others = sorted_terms(ground)
+            cands = []
+            for so in sorts:
+                if so == z3.IntSort():
+                    cands.append(tl[:6])
+                else:
+                    cands.append(others.get(so.name() + str(so), []))
+            if any(not c for c in cands):
+                continue
+            import itertools
+            combos = list(itertools.islice(itertools.product(*cands), 300))
         for cmb in combos[:max_inst]:
             insts.append(norm(z3.substitute_vars(h.body(), *reversed(cmb))))
     return [i for i in insts if not z3.is_true(i)]
@@ -133,7 +260,15 @@ def _rewrite(e, memo, k):
             sorts = [e.var_sort(i) for i in range(e.num_vars())]
             consts = [z3.Const("%s!rw%d" % (n, k), so) for n, so in zip(names, sorts)]
             inst = z3.substitute_vars(body, *reversed(consts))
-            r = z3.ForAll(consts, inst) if e.is_forall() else z3.Exists(consts, inst)
+            pats = []
+            for pi in range(e.num_patterns()):
+                pt = e.pattern(pi)
+                pats.append(z3.MultiPattern(*[z3.substitute_vars(c, *reversed(consts)) for c in pt.children()]) if pt.num_args() > 1
+                            else z3.substitute_vars(pt.arg(0), *reversed(consts)))
+            if e.is_forall():
+                r = z3.ForAll(consts, inst, patterns=pats) if pats else z3.ForAll(consts, inst)
+            else:
+                r = z3.Exists(consts, inst)
         return r
     if not z3.is_app(e) or e.num_args() == 0:
         return e
@@ -233,7 +368,10 @@ def prepare(ob):
         ground = [h for h in hyps if not _has_quant(h)] + [ng]
         quant = [h for h in hyps if _has_quant(h)]
         insts = instantiate(quant, ground)
-        # second round: instances may expose new index terms
+        em = ematch(quant, ground + insts)
+        em += ematch(quant, ground + insts + em)      # second round: instances expose new terms
+        ids = {i.get_id() for i in insts}
+        insts += [e_ for e_ in em if e_.get_id() not in ids]
         subs.append({"full": to_smt2(hyps + insts, ng), "ground": to_smt2([h for h in hyps if not _has_quant(h)] + insts, ng)})
     return subs
 
@@ -279,55 +417,75 @@ def _cli(cmd, smt2, timeout_s):
 
 
 def solve_sub(sub, expect="unsat", thorough=False):
-    """-> dict(status, backend, time, model, log)"""
+    """-> dict(status, backend, time, model, log).  Staged portfolio; `unsat` from any stage discharges (every stage uses only
+    hypotheses of the obligation or valid instances of them), `sat` counts as a refutation only from a stage that had all hypotheses."""
     log = []
-    total = 0.0
-    if expect != "sat" and sub["ground"] != sub["full"]:
-        # cheap first attempt: quantified hypotheses replaced by their ground instances
-        r0, dt0, _ = _z3_api(sub["ground"], 2500)
-        total += dt0
-        log.append(("z3-5.1/ground-instances", r0, round(dt0, 3)))
-        if r0 == "unsat":
-            return {"status": "unsat", "backend": "z3-5.1/ground-instances", "time": total, "model": None, "log": log}
-    r, dt, model = _z3_api(sub["full"], 2000 if expect == "sat" else T_Z3, want_model=True)
-    total += dt
-    log.append(("z3-5.1", r, round(dt, 3)))
-    if expect == "sat":
+    total = [0.0]
+
+    def done(status, backend, model=None, **kw):
+        return dict({"status": status, "backend": backend, "time": total[0], "model": model, "log": log}, **kw)
+
+    def z3api(which, label, tmo, want_model=False):
+        r, dt, m = _z3_api(sub[which], tmo, want_model=want_model)
+        total[0] += dt
+        log.append((label, r, round(dt, 3)))
+        return r, m
+
+    def cli(which, label, cmd):
+        ans, dt = _cli(cmd, sub[which], T_EXT)
+        total[0] += dt
+        log.append((label, ans, round(dt, 3)))
+        return ans
+
+    CVC5 = ["/usr/bin/cvc5", "--strings-exp", "--tlimit=%d" % (T_EXT * 1000)]
+    Z3OLD = ["/usr/bin/z3", "-T:%d" % T_EXT]
+    if expect == "sat":      # vacuity guard
+        r, _ = z3api("full", "z3-5.1", 2000)
         if r == "unknown":
-            r2, dt2, model = _z3_api(sub["ground"], T_Z3, want_model=True)
-            total += dt2
-            log.append(("z3-5.1/ground", r2, round(dt2, 3)))
+            r2, _ = z3api("ground", "z3-5.1/ground", T_Z3)
             r = r2 if r2 == "sat" else r
-        return {"status": r, "backend": log[-1][0], "time": total, "model": None, "log": log}
-    if r == "unsat":
-        return {"status": "unsat", "backend": "z3-5.1", "time": total, "model": None, "log": log}
+        return done(r, log[-1][0])
+    has_ground = sub["ground"] != sub["full"]
     ground_model = None
-    if sub["ground"] != sub["full"]:
-        r2, dt2, m2 = _z3_api(sub["ground"], T_Z3, want_model=True)
-        total += dt2
-        log.append(("z3-5.1/ground-instances", r2, round(dt2, 3)))
-        if r2 == "unsat":
-            return {"status": "unsat", "backend": "z3-5.1/ground-instances", "time": total, "model": None, "log": log}
-        if r2 == "sat":
-            ground_model = m2
-    elif r == "sat":
-        return {"status": "sat", "backend": "z3-5.1", "time": total, "model": model, "log": log}
+    ground_sat = False
+    if has_ground:
+        r0, m0 = z3api("ground", "z3-5.1/ground-instances", 2500, want_model=True)
+        if r0 == "unsat":
+            return done("unsat", "z3-5.1/ground-instances")
+        if r0 == "sat":
+            ground_sat, ground_model = True, m0
+        else:
+            a = cli("ground", "cvc5-1.0.3/ground-instances", CVC5)
+            if a == "unsat":
+                return done("unsat", "cvc5-1.0.3/ground-instances")
+            ground_sat = a == "sat"
+    r, model = z3api("full", "z3-5.1", T_Z3, want_model=True)
+    if r == "unsat":
+        return done("unsat", "z3-5.1")
     if r == "sat":
-        return {"status": "sat", "backend": "z3-5.1", "time": total, "model": model, "log": log}
-    for label, cmd in (("cvc5-1.0.3", ["/usr/bin/cvc5", "--strings-exp", "--tlimit=%d" % (T_EXT * 1000)]),
-                       ("z3-4.8.12", ["/usr/bin/z3", "-T:%d" % T_EXT])):
-        for which in ("full", "ground"):
-            if which == "ground" and sub["ground"] == sub["full"]:
-                continue
-            ans, dt3 = _cli(cmd, sub[which], T_EXT)
-            total += dt3
-            log.append((label + ("/ground-instances" if which == "ground" else ""), ans, round(dt3, 3)))
-            if ans == "unsat":
-                return {"status": "unsat", "backend": log[-1][0], "time": total, "model": None, "log": log}
-            if ans == "sat" and which == "full":
-                return {"status": "sat", "backend": label, "time": total, "model": ground_model or model, "log": log}
+        return done("sat", "z3-5.1", model)
+    a = cli("full", "cvc5-1.0.3", CVC5)
+    if a in ("unsat", "sat"):
+        return done(a, "cvc5-1.0.3", ground_model if a == "sat" else None)
+    if has_ground and not ground_sat:
+        if ground_model is None:
+            r2, m2 = z3api("ground", "z3-5.1/ground-instances", T_Z3, want_model=True)
+            if r2 == "unsat":
+                return done("unsat", "z3-5.1/ground-instances")
+            if r2 == "sat":
+                ground_sat, ground_model = True, m2
+        if not ground_sat:
+            a = cli("ground", "z3-4.8.12/ground-instances", Z3OLD)
+            if a == "unsat":
+                return done("unsat", "z3-4.8.12/ground-instances")
+    a = cli("full", "z3-4.8.12", Z3OLD)
+    if a in ("unsat", "sat"):
+        return done(a, "z3-4.8.12", ground_model if a == "sat" else None)
+    if ground_sat and ground_model is None:
+        r2, m2 = z3api("ground", "z3-5.1/ground-instances", T_Z3, want_model=True)
+        ground_model = m2 if r2 == "sat" else None
     # candidate counter-model from the ground problem (quantified hypotheses dropped): not a refutation by itself
-    return {"status": "unknown", "backend": "-", "time": total, "model": ground_model, "log": log, "candidate": ground_model is not None}
+    return done("unknown", "-", ground_model, candidate=ground_model is not None)
 
 
 def _work(args):
